@@ -125,7 +125,7 @@ func genValidPart(r *rand.Rand, dev bool, maxLen int) string {
 }
 
 func checkC07(c *Ctx) {
-	c.Rule = "bounded-exhaustive: every string of length <= L over the 13-symbol alphabet {a Z 0 _ - . : / = space é \\xff \\x00} (L=5 quick, 6 thorough), every byte 0..255 substituted at every position of 3-part skeletons, plus seeded valid names with single mutations; non-trivial/distinct = distinct strings that contain '/' followed later by '=' (so that per-part validation, not the splitter, decides)"
+	c.Rule = "bounded-exhaustive: every string of length <= L over the 13-symbol alphabet {a Z 0 _ - . : / = space é \\xff \\x00} (L=5 quick, 6 thorough), every Unicode code point substituted at the first, a middle and the last position of each part of a skeleton name, every byte 0..255 substituted at every position of 3-part skeletons, plus seeded valid names with single mutations; non-trivial/distinct = distinct strings that contain '/' followed later by '=' (so that per-part validation, not the splitter, decides)"
 	c.Assume("the grammar recognisers in model_grammar.go transcribe the property statement", "strings longer than the bound are only sampled")
 	L := c.pick(5, 6)
 	var total c07Stats
@@ -178,6 +178,37 @@ func checkC07(c *Ctx) {
 		}
 		add(&st)
 	})
+	// every Unicode code point (and, for surrogates and values beyond U+10FFFF, the
+	// replacement character Go makes of them) at the first, a middle and the last
+	// position of each of the three parts: letters and digits are the ASCII ones only,
+	// whatever case folding or Unicode category a code point has
+	runeSk := "abc/def=ghi"
+	runePos := []int{0, 1, 2, 4, 5, 6, 8, 9, 10}
+	const runeChunk = 0x8000
+	var runeNames []string
+	for lo := 0; lo <= 0x10FFFF+1; lo += runeChunk {
+		runeNames = append(runeNames, fmt.Sprintf("runes:%d", lo))
+	}
+	c.RunNamed(runeNames, 0, func(cs *Case) {
+		var st c07Stats
+		var lo int
+		fmt.Sscanf(cs.Name, "runes:%d", &lo)
+		for cp := lo; cp < lo+runeChunk && cp <= 0x10FFFF+1; cp++ {
+			if cp < 0x80 {
+				continue // single bytes are covered by the byte sweep
+			}
+			rs := string(rune(cp))
+			for _, pos := range runePos {
+				if c.Quick() && pos%4 != 1 && cp >= 0x3000 {
+					continue // quick tier: first/last positions only below U+3000
+				}
+				c07One(cs, runeSk[:pos]+rs+runeSk[pos+1:], &st)
+			}
+			c07One(cs, "a"+rs+"b/c"+rs+"d=e"+rs+"f", &st)
+		}
+		c.Count("code_points_swept", min(runeChunk, 0x10FFFF+2-lo))
+		add(&st)
+	})
 	// seeded longer names: valid parts, then single mutations and separator games
 	c.RunCases("gen", c.pick(200, 2000), 0, func(cs *Case) {
 		var st c07Stats
@@ -228,4 +259,5 @@ func checkC07(c *Ctx) {
 	c.Sample(5, map[string]any{"input": "a/b=c:", "expected": "rejected: name must end with a letter or digit; failure returns (\"\",\"\",input)"})
 	c.Sample(5, map[string]any{"input": "é/a=0", "expected": "rejected: non-ASCII byte in vendor"})
 	c.Floor("strings_qualified", 50)
+	c.Floor("code_points_swept", 1000000)
 }
